@@ -18,6 +18,8 @@ def _c17_nontrivial(t):
         return _hex_has(t[2], ("5b", "5d", "3c", "3e", "26", "22", "27"))
     if op in ("add", "add-ip", "view"):
         return len(t) >= 4 and t[3] != "-"
+    if op == "list":
+        return len(t) >= 3 and t[2] != "-"
     if op == "addr":
         return t[2] != "-"
     return False
@@ -25,15 +27,25 @@ def _c17_nontrivial(t):
 
 def _c17_extra(results):
     """distribution of HTTP statuses per operation, number of inputs outside the modelled subset"""
-    dist, planted = {}, 0
+    dist, planted, full, full200, listed = {}, 0, 0, 0, 0
     for inp, out, v, src in results:
         t = inp.split()
-        if len(t) >= 3 and t[1] in ("add", "add-ip", "view"):
-            k = t[1] + ":" + (out.split() or ["?"])[0]
+        if len(t) >= 3 and t[1] in ("add", "add-ip", "view", "list"):
+            o = out.split() or ["?"]
+            k = t[1] + ":" + o[0]
             dist[k] = dist.get(k, 0) + 1
+            if t[1] == "list":
+                if len(o) >= 5 and o[4].startswith("[{"):
+                    listed += 1
+                continue
             if t[2] != "absent":
                 planted += 1
-    return {"http_status_distribution": dist, "requests_with_planted_record": planted}
+            if t[2].startswith("P:"):
+                full += 1
+                if o[0] == "200":
+                    full200 += 1
+    return {"http_status_distribution": dist, "requests_with_planted_record": planted,
+            "requests_with_full_record": full, "of_these_answered_200": full200, "non_empty_listings": listed}
 
 
 CFG = {
@@ -54,10 +66,29 @@ CFG = {
         "Swat4.C17.view_body",
         "Swat4.C17.add_body",
         "Swat4.C17.view_body_inert",
+        "Swat4.C17.view_body_full",
+        "Swat4.C17.add_body_full",
+        "Swat4.C17.server_members",
+        "Swat4.C17.server_fields",
+        "Swat4.C17.player_members",
+        "Swat4.C17.objective_members",
+        "Swat4.C17.detail_members",
+        "Swat4.C17.enum_strings",
+        "Swat4.C17.enum_slugs",
+        "Swat4.C17.server_spec_agrees",
+        "Swat4.C17.player_spec_agrees",
+        "Swat4.C17.objective_spec_agrees",
+        "Swat4.C17.queryMatch_prepareQuery",
+        "Swat4.C17.list_body_full",
+        "Swat4.C17.list_elements",
+        "Swat4.C17.bindBool_table",
         "Swat4.C17.knownOf_spec",
         "Swat4.C17.knownOf_go",
         "Swat4.C17.knownOf_bits",
         "Swat4.C17.facts_ok",
+        "Swat4.C17.facts_json_ok",
+        "Swat4.C17.facts_enum_ok",
+        "Swat4.C17.slug_facts_ok",
     ],
     "shards": (1, 4),
     "nontrivial": _c17_nontrivial,
@@ -72,10 +103,20 @@ CFG = {
             "hostnames up to 64 code points over SWAT codes ([c=…], [C=…], [\\c], [b], [\\b], [u], unterminated and nested brackets), "
             "HTML metacharacters, quotes, entities, white space, non-ASCII incl. U+017F/U+212A (the two code points Go's (?i)\\w "
             "contains beyond ASCII); thorough: exhaustive to length 4 over the 12-symbol alphabet "
-            "{[c=ff0000],[\\c],[b],[,],c,=,<,&,\",x,space} for both functions. Compared: status, hostname_html, hostname_plain, "
-            "store/queue effect. Oracle on the implementation's output: status in the table and <500, the row the reference "
-            "parser selects, no store effect on 400, every stored/queued address routable by the RFC ranges, Inert(hostname_html), "
-            "NoCodes(hostname_plain). non-trivial = hostname with a bracket or metacharacter / request with a non-empty argument",
+            "{[c=ff0000],[\\c],[b],[,],c,=,<,&,\",x,space} for both functions; full records (extended state: every field of "
+            "details.Info, 0-16 players with every field, 0-9 objectives; mostly valid values, distinct from field to field so "
+            "that a swap shows, plus empty strings, int edges up to +-2^63, negative time left, Latin-1 / non-Latin-1 / astral "
+            "text, slug special cases, team / coop status / objective status from -2 to 6 and far out of range, Details.Info "
+            "equal to / zero / different from Info) through view and add; listings of 0-6 such records with status words, "
+            "refresh ages around the liveness limit and the six filter parameters (matching, near-miss, ParseBool spellings, "
+            "bad flags). Compared: status, hostname_html, hostname_plain, store/queue effect, and the WHOLE body as a canonical "
+            "token (every member in document order; an unmodelled slug member matches anything). Oracle on the implementation's "
+            "output: status in the table and <500, the row the reference parser selects, no store effect on 400, every "
+            "stored/queued address routable by the RFC ranges, Inert(hostname_html), NoCodes(hostname_plain), and for a 200 the "
+            "body has exactly the members of RestSpec.serverWants / playerWants / objectiveWants in order, each equal to (or, for "
+            "the derived ones, a slug / code-free / inert rendering of) the field of the PLANTED record the table names, players "
+            "and objectives in stored order, null for none; a listing contains exactly the records the reference selection "
+            "expects. non-trivial = hostname with a bracket or metacharacter / request with a non-empty argument",
     "assumptions": [
         "hostnames are valid UTF-8 (heartbeat values pass bytes.ToValidUTF8, probe values are latin-1 decoded); the model works on code points",
         "storage is healthy (miniredis answers every command); unmapped use-case errors are outside the statement",
@@ -83,13 +124,23 @@ CFG = {
         "are not modelled: they are not compared, only passed through the oracle",
         "address strings containing '/' or empty are answered by the router (404 / 301), not by the handler: only 'no 5xx' is checked for them",
         "Go accepts ports written with a leading '+' and leading zeros (strconv.Atoi); the reference parser tolerates the same",
+        "stored strings are valid UTF-8 (the repository stores json.Marshal of the record); slug.Make is modelled for ASCII, Latin-1, "
+        "the five code points of slug's defaultSub and code points >= U+10000; a slug member of a string with another code point "
+        "(unidecode's table beyond Latin-1) is not compared, only checked for the shape of a slug",
+        "the listing's query string is taken as split by url.ParseQuery / gin (first value per parameter); the order of the "
+        "listing is the iteration order of a Go map (pkg/slice.Intersection): elements are compared as a multiset (sorted)",
+        "encoding/json round trip of the response (Marshal by gin, Decode by the harness with UseNumber) is the identity on "
+        "strings, ints and bools",
     ],
     "trusted_base": COMMON_TRUSTED + [
         "re-modelled rather than verified: Go regexp (the four expressions of styles.go as hand-written scanners, incl. simple case folding of \\w), "
         "html.EscapeString, strings.TrimSpace/unicode.IsSpace, net.ParseIP for dotted quads, net.IP class predicates, strconv.Atoi, "
         "encoding/json for {IP string; Port int}, validator tags required/ipv4/gte/lte, gin routing and binding",
         "reference definitions in Spec/RestSpec.lean (RFC ranges, status table, Inert tokenizer, NoCodes)",
-        "generated facts (binding tags, status bits, string literals of styles.go) via the harness' extractor",
+        "generated facts (binding tags, status bits, string literals of styles.go, json / form tags and kinds of the response "
+        "structs, String() of the three enumerations for -2..8, slug.Make per Latin-1 character) via the harness' extractor",
+        "re-modelled: gosimple/slug v1.15.0 Make (en) and gosimple/unidecode v1.0.1 (Latin-1 rows of its table), fmt %d, "
+        "strconv.ParseBool, gin's query binding of string / bool fields",
     ],
     "manifest": {
         "text": "Lean theorems: accepted_iff_routable — addr.New∘NewPublicAddr accepts four bytes and a port iff the address is in none of "
@@ -102,8 +153,18 @@ CFG = {
                 "no raw < > & quotes); clean_no_codes — Clean's output contains no style code, and its loop terminates; view_body / add_body — "
                 "on every route of the model a 200 comes only from a stored record with the details bit, its hostname_html / hostname_plain "
                 "are ToHTML / Clean of the hostname stored in that record and nothing is stored or queued, and every other status carries "
-                "neither member (of model.Server only these two members are modelled and compared; the other 25 and players/objectives are "
-                "not); view_body_inert — hence every 200 has inert hostname_html and code-free hostname_plain; knownOf_spec / knownOf_go / "
+                "no server data; view_body_full / add_body_full - the whole body of a 200 is NewServerDetailFromDomain resp. "
+                "NewServerFromDomain of exactly the stored record; server_members / player_members / objective_members / detail_members - "
+                "the JSON documents member by member: name, order and the stored field each equals (player_num = Info.NumPlayers, "
+                "player_max = Info.MaxPlayers, round_max = Info.NumRounds, time_round = Info.TimeLeft, vip_captures = VIPArrests, "
+                "team / coop_status / status = the String() renderings with their numeral fallback, the four slugs, players and "
+                "objectives in stored order, nothing read from Details.Info); server_spec_agrees / player_spec_agrees / "
+                "objective_spec_agrees - the model's choice of stored field per member is the one the independent reference tables "
+                "name; list_body_full / list_elements - the listing answers 400 exactly on an unparsable flag, else 200 with "
+                "NewServerFromDomain of exactly the records with the info status, refreshed within the liveness window and passing "
+                "the six filters (queryMatch_prepareQuery), up to order; facts_json_ok / facts_enum_ok / slug_facts_ok - json tags, "
+                "field kinds, form tags, entity field lists, String() values and slug.Make per Latin-1 character as read from the "
+                "source on every run; view_body_inert — hence every 200 has inert hostname_html and code-free hostname_plain; knownOf_spec / knownOf_go / "
                 "knownOf_bits — the columns of the reference table are exactly the bit tests 8, 128-or-16, 256 of the status word, in the "
                 "form server.go computes them and bit by bit, in the order addserver.go / getserver.go test them. The model is tied "
                 "to the code by differential runs through the real router and by facts_ok (binding tags, status bits and the regular "
